@@ -219,9 +219,12 @@ def biboLog2 (numLevels res band : Nat) : Nat :=
     else (if d = 1 then 2 else 3)
 
 /-- exponent of a band as `quantizationInfo` stores it (`info.expn[idx] = EncodedSteps[idx] >> 3`):
-    `precision + ceil(log2(v²)) - 1`, `precision = bitDepth (+1 with RCT)` -/
+    `precision + ceil(log2(v²)) - 1`, `precision = bitDepth (+1 with RCT)`; since commit 18c42dd
+    `numLevels == 0` gives `precision` itself (the only band holds the level-shifted samples). -/
 def htExpn (numLevels bitDepth : Nat) (usesRCT : Bool) (res band : Nat) : Int :=
-  (bitDepth : Int) + (if usesRCT then 1 else 0) + biboLog2 numLevels res band - 1
+  let precision : Int := (bitDepth : Int) + (if usesRCT then 1 else 0)
+  if numLevels = 0 then precision
+  else precision + biboLog2 numLevels res band - 1
 
 /-- OpenJPH reversible path: one guard bit -/
 def htGuardBits : Int := 1
@@ -254,6 +257,41 @@ def fromSignMag (kmax : Nat) (w : Nat) : Int :=
 /-- what `prepareOJPHSample` keeps of a word: `(t + t) >> p` with `p = 30 - (kmax-1)` drops the sign bit and
     everything below the Kmax magnitude bits; a word whose magnitude field is 0 is coded as insignificant. -/
 def magField (kmax : Nat) (w : Nat) : Nat := (2 * w % 2 ^ 32) / 2 ^ (31 - kmax + 1)
+
+/-! ## Reversible 5/3 lifting steps (wavelet/dwt53.go) and the BIBO gain tables (quantization.go) -/
+
+/-- predict step: `high = odd - ((evenL + evenR) >> 1)` (`>>` on a signed int is floor division) -/
+def lift53High (evenL odd evenR : Int) : Int := odd - (evenL + evenR) / 2
+/-- update step: `low = even + ((highL + highR + 2) >> 2)` -/
+def lift53Low (highL even highR : Int) : Int := even + (highL + highR + 2) / 4
+
+/-- `openJPH53LowBIBO[d]`, `openJPH53HighBIBO[d]` of quantization.go, × 10^4 (hand copy of the float literals;
+    `biboLog2` — which the correspondence ties to the real code — is proved to be their ceil-log2) -/
+def bibo53Low : Nat → Nat
+  | 0 => 10000 | 1 => 15000 | 2 => 16250 | 3 => 16875 | 4 => 16963 | 5 => 17067 | _ => 17116
+def bibo53High : Nat → Nat
+  | 0 => 20000 | 1 => 25000 | 2 => 27500 | 3 => 28047 | 4 => 28198 | _ => 28410
+
+/-- nominal two-dimensional BIBO gain of a band × 10^8 (the `v*v` of `calculateOpenJPHQuantizationParams`) -/
+def bandGain (numLevels res band : Nat) : Nat :=
+  if res = 0 then bibo53Low numLevels * bibo53Low numLevels
+  else
+    let d := numLevels - res + 1
+    if band = 3 then bibo53High (d - 1) * bibo53High (d - 1) else bibo53Low d * bibo53High (d - 1)
+
+/-! ## Scup locator (encoder.go `writeScupLocator`, decoder.go `parseStandardSegments`) -/
+
+/-- `block[len-1] = byte(scup >> 4); block[len-2] = (block[len-2] & 0xF0) | byte(scup & 0x0F)`:
+    returns the new (block[len-2], block[len-1]); `&0xF0 | low nibble` written arithmetically -/
+def scupWrite (oldLast2 scup : Nat) : Nat × Nat := (oldLast2 % 256 / 16 * 16 + scup % 16, scup / 16 % 256)
+
+/-- `scup := int(codeblock[lcup-1])<<4 | int(codeblock[lcup-2]&0x0F)` -/
+def scupRead (last2 last1 : Nat) : Nat := last1 * 16 + last2 % 16
+
+/-- `parseStandardSegments`: `lcup < 2` or `scup < 2 || scup > lcup || scup > 4079` is an error; otherwise the
+    MagSgn segment is `codeblock[:lcup-scup]` and the MEL+VLC segment `codeblock[lcup-scup:]` -/
+def scupSplit (lcup scup : Nat) : Option (Nat × Nat) :=
+  if lcup < 2 ∨ scup < 2 ∨ scup > lcup ∨ scup > 4079 then none else some (lcup - scup, scup)
 
 /-! ## Tile-part lengths (`writeHTJ2KTileParts`, `writeTLM`) -/
 
@@ -332,5 +370,96 @@ def ojphUVLC (code : Int) : Int × Int × Int × Int × Int × Int :=
 
 /-- the four U-VLC prefixes as (value, length), LSB first -/
 def uvlcPrefixes : List (Nat × Nat × Nat) := [(0, 1, 1), (0, 2, 2), (0, 4, 3), (0, 0, 3)]
+
+/-! ## U-VLC decode tables (uvlc_tables.go `generateUVLCTables`) and the encode/decode pair -/
+
+/-- the local `dec` table: 3 LSBs of the window ↦ (prefix length lp, suffix length ls, prefix value u_pfx) -/
+def uvlcDec (h : Nat) : Nat × Nat × Nat :=
+  match h % 8 with
+  | 0 => (3, 5, 5)   -- 000
+  | 2 => (2, 0, 2)   -- 010
+  | 4 => (3, 1, 3)   -- 100
+  | 6 => (2, 0, 2)   -- 110
+  | _ => (1, 0, 1)   -- xx1
+
+/-- `UVLCDecodeEntry(lp | (ls << 3) | (u0suf << 7) | (u0 << 10) | (u1 << 13))` (fields are disjoint: `|` is `+`) -/
+def uvlcPack (lp ls u0suf u0 u1 : Nat) : Nat := lp + ls * 8 + u0suf * 128 + u0 * 1024 + u1 * 8192
+
+/-- body of the first loop: `UVLCTbl0[i]`, i < 320 (mode = i >> 6 ∈ 0..4) -/
+def uvlcTbl0 (i : Nat) : Nat :=
+  let mode := i / 64
+  let vlc := i % 64
+  if mode = 0 then 0
+  else if mode = 1 ∨ mode = 2 then
+    let (lp, ls, pfx) := uvlcDec vlc
+    if mode = 2 then uvlcPack lp ls 0 0 pfx else uvlcPack lp ls ls pfx 0
+  else if mode = 3 then
+    let (lp0, ls0, pfx0) := uvlcDec vlc
+    let vlc := vlc / 2 ^ lp0
+    let (lp1, ls1, pfx1) := uvlcDec vlc
+    if lp0 = 3 then uvlcPack (lp0 + 1) ls0 ls0 pfx0 (vlc % 2 + 1)
+    else uvlcPack (lp0 + lp1) (ls0 + ls1) ls0 pfx0 pfx1
+  else
+    let (lp0, ls0, pfx0) := uvlcDec vlc
+    let vlc := vlc / 2 ^ lp0
+    let (lp1, ls1, pfx1) := uvlcDec vlc
+    uvlcPack (lp0 + lp1) (ls0 + ls1) ls0 (pfx0 + 2) (pfx1 + 2)
+
+/-- body of the second loop: `UVLCTbl1[i]`, i < 256 (mode ∈ 0..3) -/
+def uvlcTbl1 (i : Nat) : Nat :=
+  let mode := i / 64
+  let vlc := i % 64
+  if mode = 0 then 0
+  else if mode = 1 ∨ mode = 2 then
+    let (lp, ls, pfx) := uvlcDec vlc
+    if mode = 2 then uvlcPack lp ls 0 0 pfx else uvlcPack lp ls ls pfx 0
+  else
+    let (lp0, ls0, pfx0) := uvlcDec vlc
+    let vlc := vlc / 2 ^ lp0
+    let (lp1, ls1, pfx1) := uvlcDec vlc
+    uvlcPack (lp0 + lp1) (ls0 + ls1) ls0 pfx0 pfx1
+
+/-- `decodeOJPHUVLC(initial, mode, vlc)` on the LSB-first window `v` (`readerPeek`): returns (u0, u1, bits consumed).
+    `mode` is `(t0&8)<<3 | (t1&8)<<4` (+0x40 on the initial row when both quads have u_off and the MEL event is 1). -/
+def decodeUVLC (initial : Bool) (mode v : Nat) : Nat × Nat × Nat :=
+  let e := if initial then uvlcTbl0 (mode + v % 64) else uvlcTbl1 (mode + v % 64)
+  let lp := e % 8                -- TotalPrefixLen
+  let ls := e / 8 % 16           -- TotalSuffixLen
+  let u0suf := e / 128 % 8       -- U0SuffixLen
+  let v := v / 2 ^ lp            -- readerAdvance(lp); readerPeek
+  let tmp := v % 2 ^ ls
+  (e / 1024 % 8 + tmp % 2 ^ u0suf, e / 8192 % 8 + tmp / 2 ^ u0suf, lp + ls)
+
+/-- `vlc.encode(cwd, len)` calls in order: LSB-first concatenation, only the low `len` bits of `cwd` are used -/
+def vlcConcat : List (Nat × Nat) → Nat × Nat
+  | [] => (0, 0)
+  | (cwd, len) :: rest => let r := vlcConcat rest; (cwd % 2 ^ len + r.1 * 2 ^ len, len + r.2)
+
+def uvlcCode (code : Nat) : (Nat × Nat) × (Nat × Nat) :=
+  let (pre, preLen, suf, sufLen, _, _) := ojphUVLC code
+  ((pre.toNat, preLen.toNat), (suf.toNat, sufLen.toNat))
+
+/-- `ojphEncodeInitialUVLC(vlc, u0, u1)` -/
+def encodeInitialUVLC (u0 u1 : Nat) : Nat × Nat :=
+  if u0 > 2 ∧ u1 > 2 then
+    let c0 := uvlcCode (u0 - 2); let c1 := uvlcCode (u1 - 2)
+    vlcConcat [c0.1, c1.1, c0.2, c1.2]
+  else if u0 > 2 ∧ u1 > 0 then
+    let c0 := uvlcCode u0
+    vlcConcat [c0.1, (u1 - 1, 1), c0.2]
+  else
+    let c0 := uvlcCode u0; let c1 := uvlcCode u1
+    vlcConcat [c0.1, c1.1, c0.2, c1.2]
+
+/-- `ojphEncodeNonInitialUVLC(vlc, u0, u1)` -/
+def encodeNonInitialUVLC (u0 u1 : Nat) : Nat × Nat :=
+  let c0 := uvlcCode u0; let c1 := uvlcCode u1
+  vlcConcat [c0.1, c1.1, c0.2, c1.2]
+
+/-- the decoder's mode for a quad pair: u_off flags of the two quads (u > 0), and on the initial row the MEL event
+    `min(u0,u1) > 2` when both are set (encoder: `mel.encode(minInt(u0, u1) > 2)`) -/
+def uvlcMode (initial : Bool) (u0 u1 : Nat) : Nat :=
+  (if u0 > 0 then 64 else 0) + (if u1 > 0 then 128 else 0) +
+  (if initial ∧ u0 > 2 ∧ u1 > 2 then 64 else 0)
 
 end Htj2k
